@@ -149,18 +149,23 @@ def check_wrapped_stream(kind, p, X, wrap, wp, sup=None):
     import artlib
     import contextlib, io
     out = []
-    base = K.make(kind, p)
+    late = sup.get("late_rho") if sup else None
+    base = K.make(kind, dict(p, rho=late) if late is not None else p)
     with contextlib.redirect_stdout(io.StringIO()):
         top = (artlib.DualVigilanceART(base, rho_lower_bound=wp["lb"]) if wrap == "DV"
                else artlib.TopoART(base, beta_lower=wp["beta_lower"], tau=wp["tau"], phi=wp["phi"]))
+    if late is not None:
+        # the vigilance is configured on the base module after the wrapper was built: the bounds are about the value
+        # in force during training, not about the value at wrapping time
+        top.base_module.set_params(rho=float(p["rho"]))
     rho = float(p["rho"])
     d = X.shape[1]
-    veto = BitVeto(sup["bits"]) if sup else None
+    veto = BitVeto(sup["bits"]) if sup and sup.get("bits") else None
     for i, x in enumerate(X):
         Wb = [np.array(w, dtype=float).copy() for w in base.W] if hasattr(base, "W") else []
         try:
             with np.errstate(all="ignore"), contextlib.redirect_stdout(io.StringIO()):
-                if sup:
+                if veto is not None:
                     top.partial_fit(x.reshape(1, -1), match_reset_func=veto, match_tracking=sup["mode"], epsilon=sup["eps"])
                 else:
                     top.partial_fit(x.reshape(1, -1))
@@ -232,6 +237,8 @@ def wrapped_oracle(rng, n):
             raw = np.array([[rng.random() for _ in range(d)] for _ in range(rng.randrange(5, 40))])
             X = np.hstack([raw, 1.0 - raw])
             sup = {"bits": [rng.random() < 0.55 for _ in range(11)], "mode": "MT+", "eps": rng.choice([0.0, 1e-10, 1e-3, 0.05])}
+        if sup is None and kind in ("Fuzzy", "Hyper", "Ellip") and rng.random() < 0.3:
+            sup = {"late_rho": (wp["lb"] + 0.01) if wrap == "DV" else rng.choice([0.0, 0.1, 0.2])}
         cnt += 1
         for sig, text, i in check_wrapped_stream(kind, p, X, wrap, wp, sup):
             fails.append({"signature": sig, "text": text,
